@@ -87,13 +87,24 @@ func (vc *VC) scriptMode2(o *Oblig, prelude string, axioms []string, wantModel b
 		kept := vis[:0]
 		for i, a := range vc.assum[:o.nAssum] {
 			if tags, ok := vc.assumTags[i]; ok {
-				shared := false
+				// visible iff the obligation serves one of the fact's properties and, when the fact names groups
+				// (grp=<name>: a finer partition inside one property), belongs to one of them
+				shared, hasGrp, grpShared := false, false, false
 				for _, t := range tags {
-					if t != "scoped" && hasProp(o.Props, t) {
+					if strings.HasPrefix(t, "grp=") {
+						hasGrp = true
+						for _, q := range o.Props {
+							if q == t {
+								grpShared = true
+							}
+						}
+						continue
+					}
+					if !pseudoTag[t] && hasProp(o.Props, t) {
 						shared = true
 					}
 				}
-				if !shared {
+				if !shared || (hasGrp && !grpShared) {
 					continue
 				}
 			}
